@@ -43,7 +43,8 @@ def shapes(kinds):
         elif k == 'tuple':
             out += [('tuple', n, None) for n in (1, 2)]
         elif k == 'dict':
-            out += [('dict', 1, ('k',)), ('dict', 2, ('k', 'j'))]
+            # two insertion orders of the same keys: equal dicts must behave alike
+            out += [('dict', 1, ('k',)), ('dict', 2, ('k', 'j')), ('dict', 2, ('j', 'k'))]
     return out
 
 
